@@ -6,8 +6,11 @@ Model: `I18nVerif.Model.Context` (contexts = cells, views share their context's 
 time).  Spec: `I18nVerif.Spec.Context` (a function of the operation history: latest `set*` on any view of the
 context, else its initial locale).
 
-All theorems hold for every operation sequence (any length, any tree of contexts, any number of scoped views
-and closures) — induction over the list of operations; nothing is bounded.
+All theorems hold for every operation sequence (any length, any tree of contexts and owners, any number of
+scoped views, closures and memos) — induction over the list of operations; nothing is bounded.
+
+"Reactive accessor" has the modelled meaning of leptos' lazy `Memo` (see the model file): cached value,
+invalidated by *tracked* sets only, recomputed at the next read.
 
 These theorems are thin by nature: an `I18nContext` is a `Copy` handle on one `RwSignal`, and the model says
 just that.  What is **trusted**, not proved: leptos' reactive runtime (`RwSignal::get/set/write_untracked` are
@@ -67,10 +70,10 @@ theorem C16_set_then_observe (s : State) (v v' k kv c : Nat) (l : Locale) (hc : 
       (step s1 (.get v')).2 = .locale l ∧ (step s1 (.getUntracked v')).2 = .locale l ∧
       (step s1 (.callClosure k)).2 = .locale l := by
   intro s1 hs1
-  have e : s1 = { s with cells := s.cells.set c l } := by
+  have e : s1.cells = s.cells.set c l ∧ s1.views = s.views ∧ s1.closures = s.closures := by
     rcases hs1 with h | h <;> simp [h, step, State.write, hv, hc]
-  subst e
-  simp [step, State.read, hv', hk, hkv, hc]
+  obtain ⟨e1, e2, e3⟩ := e
+  simp [step, State.read, e1, e2, e3, hv', hk, hkv, hc]
 
 /-! ### Isolation -/
 
@@ -87,9 +90,9 @@ def Op.target (s : State) : Op → Option Nat
 theorem C16_isolation (s : State) (op : Op) (c' : Nat) (hc : c' < s.cells.length)
     (hne : Op.target s op ≠ some c') : (step s op).1.cells[c']? = s.cells[c']? := by
   have happ : ∀ x, (s.cells ++ [x])[c']? = s.cells[c']? := fun x => List.getElem?_append_left hc
-  have hset : ∀ v l, s.views[v]? ≠ some c' →
-      (match s.write v l with | some s' => (s', Obs.none) | none => (s, Obs.bad)).1.cells[c']? = s.cells[c']? := by
-    intro v l hv
+  have hset : ∀ v l t, s.views[v]? ≠ some c' →
+      (match s.write v l t with | some s' => (s', Obs.none) | none => (s, Obs.bad)).1.cells[c']? = s.cells[c']? := by
+    intro v l t hv
     unfold State.write
     cases hvv : s.views[v]? with
     | none => simp
@@ -105,8 +108,8 @@ theorem C16_isolation (s : State) (op : Op) (c' : Nat) (hc : c' < s.cells.length
     | none => simp [step, happ]
     | some pv => cases hr : s.read pv <;> simp [step, hr, happ]
   | scope v => cases hv : s.views[v]? <;> simp [step, hv]
-  | set v l => exact hset v l (by simpa [Op.target] using hne)
-  | setUntracked v l => exact hset v l (by simpa [Op.target] using hne)
+  | set v l => exact hset v l true (by simpa [Op.target] using hne)
+  | setUntracked v l => exact hset v l false (by simpa [Op.target] using hne)
   | get v => cases hr : s.read v <;> simp [step, hr]
   | getUntracked v => cases hr : s.read v <;> simp [step, hr]
   | makeClosure v => by_cases h : v < s.views.length <;> simp [step, h]
@@ -114,6 +117,21 @@ theorem C16_isolation (s : State) (op : Op) (c' : Nat) (hc : c' < s.cells.length
     cases hi : s.closures[i]? with
     | none => simp [step, hi]
     | some v => cases hr : s.read v <;> simp [step, hi, hr]
+  | makeMemo v => by_cases h : v < s.views.length <;> simp [step, h]
+  | readMemo i =>
+    cases hi : s.memos[i]? with
+    | none => simp [step, hi]
+    | some m =>
+      cases hd : m.dirty with
+      | true => cases hr : s.read m.view <;> simp [step, hi, hd, hr]
+      | false => cases hcache : m.cache <;> simp [step, hi, hd, hcache]
+  | provideRoot init => simp [step, happ]
+  | childOwner o => by_cases h : o < s.owners.length <;> simp [step, h]
+  | provider o initial fallback => by_cases h : o < s.owners.length <;> simp [step, h, happ]
+  | useCtx o =>
+    by_cases h : o < s.owners.length
+    · cases hl : s.lookup o <;> simp [step, h, hl]
+    · simp [step, h]
 
 theorem cells_length_mono (s : State) (op : Op) : s.cells.length ≤ (step s op).1.cells.length := by
   cases op with
@@ -140,6 +158,21 @@ theorem cells_length_mono (s : State) (op : Op) : s.cells.length ≤ (step s op)
     cases hi : s.closures[i]? with
     | none => simp [step, hi]
     | some v => cases hr : s.read v <;> simp [step, hi, hr]
+  | makeMemo v => by_cases h : v < s.views.length <;> simp [step, h]
+  | readMemo i =>
+    cases hi : s.memos[i]? with
+    | none => simp [step, hi]
+    | some m =>
+      cases hd : m.dirty with
+      | true => cases hr : s.read m.view <;> simp [step, hi, hd, hr]
+      | false => cases hcache : m.cache <;> simp [step, hi, hd, hcache]
+  | provideRoot init => simp [step]
+  | childOwner o => by_cases h : o < s.owners.length <;> simp [step, h]
+  | provider o initial fallback => by_cases h : o < s.owners.length <;> simp [step, h]
+  | useCtx o =>
+    by_cases h : o < s.owners.length
+    · cases hl : s.lookup o <;> simp [step, h, hl]
+    · simp [step, h]
 
 /-- does some operation of the sequence write to context `c`? (views created on the way are followed) -/
 def writes (s : State) : List Op → Nat → Bool
@@ -173,7 +206,7 @@ theorem C16_parent_child_isolated (s : State) (pv pc : Nat) (initial : Option Lo
   obtain ⟨x, hx⟩ : ∃ x, s.cells[pc]? = some x := ⟨s.cells[pc], List.getElem?_eq_getElem hpc⟩
   have hr : s.read pv = some x := by simp [State.read, hpv, hx]
   obtain ⟨y, hs1⟩ : ∃ y, s1 = { s with cells := s.cells ++ [y], views := s.views ++ [s.cells.length] } :=
-    ⟨Resolve.subMemo true initial none (Resolve.signalMaybeOnceThen (some x) fallback true), by simp [s1, step, hr]⟩
+    ⟨subInit initial (some x) fallback, by simp [s1, step, hr]⟩
   have hchild : s1.views[child]? = some s.cells.length := by simp [hs1, child]
   have hpv1 : s1.views[pv]? = some pc := by
     have : pv < s.views.length := (List.getElem?_eq_some_iff.mp hpv).1
@@ -217,6 +250,21 @@ theorem views_stable (s : State) (op : Op) (v : Nat) (hv : v < s.views.length) :
     cases hi : s.closures[i]? with
     | none => simp [step, hi]
     | some w => cases hr : s.read w <;> simp [step, hi, hr]
+  | makeMemo w => by_cases h : w < s.views.length <;> simp [step, h]
+  | readMemo i =>
+    cases hi : s.memos[i]? with
+    | none => simp [step, hi]
+    | some m =>
+      cases hd : m.dirty with
+      | true => cases hr : s.read m.view <;> simp [step, hi, hd, hr]
+      | false => cases hcache : m.cache <;> simp [step, hi, hd, hcache]
+  | provideRoot init => simp [step, happ]
+  | childOwner o => by_cases h : o < s.owners.length <;> simp [step, h]
+  | provider o initial fallback => by_cases h : o < s.owners.length <;> simp [step, h, happ]
+  | useCtx o =>
+    by_cases h : o < s.owners.length
+    · cases hl : s.lookup o <;> simp [step, h, hl, happ]
+    · simp [step, h]
 
 theorem views_stable_run (s : State) (ops : List Op) (v : Nat) (hv : v < s.views.length) :
     (run s ops).1.views[v]? = s.views[v]? := by
@@ -253,6 +301,240 @@ theorem C16_scope_shares (s : State) (v c : Nat) (hv : s.views[v]? = some c) :
   have l2 : v < s1.views.length := by simp [hs1]; omega
   exact ⟨by rw [views_stable_run s1 ops nv l1, h1], by rw [views_stable_run s1 ops v l2, h2]⟩
 
+/-! ### Reactive accessors (memos) -/
+
+theorem run_abs {s : State} {h : Hist} (a : Abs s h) (ops : List Op) :
+    Abs (run s ops).1 (history h ops) := by
+  induction ops generalizing s h with
+  | nil => exact a
+  | cons op ops ih =>
+    have ⟨_, h2⟩ := step_refines a op
+    simp only [run, history]
+    exact ih h2
+
+/-- **Memo refinement**: after every operation sequence, every memo of the machine holds exactly what the
+    specification says — the view it was derived from, as cache "the value of the cell at its last (re)evaluation",
+    as dirty flag "never read, or a tracked `set_locale` on its context happened since the last read" — and a read
+    of any memo returns what the specification's rule (`memoRead`) says.  (`C16_refinement` already includes the
+    `readMemo` observations of the sequence itself; this is the statement about the state it leaves behind.) -/
+theorem C16_memo_refinement (ops : List Op) :
+    let s := (run State.empty ops).1
+    let h := history [] ops
+    (∀ i, s.memos[i]? = ((memoViews h)[i]?).map
+        (fun v => ({ view := v, cache := memoCache h i, dirty := memoStale h i } : Memo))) ∧
+    (∀ i, (step s (.readMemo i)).2 = match memoRead h i with | some l => .locale l | none => .bad) := by
+  intro s h
+  have a : Abs s h := run_abs abs_empty ops
+  refine ⟨a.memo.get, fun i => ?_⟩
+  have h1 := (step_refines a (.readMemo i)).1
+  simp only [obsAt] at h1
+  rw [h1]
+  cases memoRead h i <;> rfl
+
+/-- the specification's rule, spelled out: a tracked set through any view of the memo's context makes the memo
+    stale (whatever the value, equal to the current one or not), an untracked set never does, a read makes it fresh -/
+theorem C16_spec_memo_staleness (h : Hist) (i v : Nat) (l : Locale) :
+    (memoCtx h i = (Spec.views h)[v]? → memoStale (.set v l :: h) i = true) ∧
+    memoStale (.setUntracked v l :: h) i = memoStale h i ∧
+    memoStale (.readMemo i :: h) i = false := by
+  refine ⟨fun e => by simp [memoStale, e], by simp [memoStale], by simp [memoStale]⟩
+
+/-- **A tracked set notifies every reactive accessor of the context** — whatever the cell held before, in
+    particular when it already held `x` because of an earlier `set_locale_untracked(x)`: after `set_locale(x)` through
+    any view `v` of context `c`, every memo derived earlier from any view of `c` reads `x`, and so does every memo
+    derived afterwards. -/
+theorem C16_tracked_set_notifies (s : State) (v c : Nat) (x : Locale)
+    (hv : s.views[v]? = some c) (hc : c < s.cells.length) :
+    let s1 := (step s (.set v x)).1
+    (∀ i m, s.memos[i]? = some m → s.views[m.view]? = some c → (step s1 (.readMemo i)).2 = .locale x) ∧
+    (∀ w, s.views[w]? = some c →
+      (step (step s1 (.makeMemo w)).1 (.readMemo s.memos.length)).2 = .locale x) := by
+  intro s1
+  have hs1 : s1 = { s with cells := s.cells.set c x, memos := markDirty s.views c s.memos } := by
+    simp [s1, step, State.write, hv, hc]
+  constructor
+  · intro i m hm hmv
+    have h1 : s1.memos[i]? = some { m with dirty := true } := by
+      simp [hs1, markDirty, hm, hmv]
+    have h2 : s1.read m.view = some x := by
+      simp [hs1, State.read, hmv, hc]
+    simp [step, h1, h2]
+  · intro w hw
+    have hwlt : w < s1.views.length := by
+      have := (List.getElem?_eq_some_iff.mp hw).1
+      simpa [hs1] using this
+    have hlen : s1.memos.length = s.memos.length := by simp [hs1, markDirty]
+    have h2 : s1.read w = some x := by simp [hs1, State.read, hw, hc]
+    have h3 : ∀ ms, ({ s1 with memos := ms } : State).read w = some x := by
+      intro ms; simpa [State.read] using h2
+    simp [step, hwlt, ← hlen, h3]
+
+/-- the pattern the property is about: `set_locale_untracked(x)` then `set_locale(x)` (same value, through any two
+    views of the context) — every memo created before reads `x` afterwards -/
+theorem C16_tracked_set_notifies_after_untracked (s : State) (v v' c : Nat) (x : Locale)
+    (hv : s.views[v]? = some c) (hv' : s.views[v']? = some c) (hc : c < s.cells.length) :
+    let s2 := (step (step s (.setUntracked v x)).1 (.set v' x)).1
+    ∀ i m, s.memos[i]? = some m → s.views[m.view]? = some c → (step s2 (.readMemo i)).2 = .locale x := by
+  intro s2 i m hm hmv
+  have hs1 : (step s (.setUntracked v x)).1 = { s with cells := s.cells.set c x } := by
+    simp [step, State.write, hv, hc]
+  have := (C16_tracked_set_notifies (step s (.setUntracked v x)).1 v' c x (by simp [hs1, hv'])
+    (by simp [hs1, hc])).1 i m (by simp [hs1, hm]) (by simp [hs1, hmv])
+  exact this
+
+/-- the modelled laziness (leptos' semantics of `write_untracked`): an untracked set does *not* refresh a memo
+    that was already evaluated — it keeps returning its cached value until the next tracked set -/
+theorem C16_untracked_set_keeps_cache (s : State) (v c i : Nat) (x y : Locale) (mv : Nat)
+    (hv : s.views[v]? = some c) (hc : c < s.cells.length)
+    (hm : s.memos[i]? = some { view := mv, cache := some y, dirty := false }) :
+    (step (step s (.setUntracked v x)).1 (.readMemo i)).2 = .locale y := by
+  simp [step, State.write, hv, hc, hm]
+
+/-! ### Providers and owners -/
+
+/-- an operation leaves the owner tree alone or appends one owner whose parent already exists -/
+theorem owners_step (s : State) (op : Op) :
+    (step s op).1.owners = s.owners ∨
+    ∃ n, (step s op).1.owners = s.owners ++ [n] ∧ ∀ p, n.parent = some p → p < s.owners.length := by
+  cases op with
+  | newRoot init => exact Or.inl rfl
+  | sub parent initial fallback =>
+    refine Or.inl ?_
+    cases parent with
+    | none => rfl
+    | some pv => cases hr : s.read pv <;> simp [step, hr]
+  | scope v => refine Or.inl ?_; cases hv : s.views[v]? <;> simp [step, hv]
+  | set v l =>
+    refine Or.inl ?_
+    simp only [step, State.write]
+    cases s.views[v]? with
+    | none => rfl
+    | some c => by_cases hlt : c < s.cells.length <;> simp [hlt]
+  | setUntracked v l =>
+    refine Or.inl ?_
+    simp only [step, State.write]
+    cases s.views[v]? with
+    | none => rfl
+    | some c => by_cases hlt : c < s.cells.length <;> simp [hlt]
+  | get v => refine Or.inl ?_; cases hr : s.read v <;> simp [step, hr]
+  | getUntracked v => refine Or.inl ?_; cases hr : s.read v <;> simp [step, hr]
+  | makeClosure v => refine Or.inl ?_; by_cases h : v < s.views.length <;> simp [step, h]
+  | callClosure i =>
+    refine Or.inl ?_
+    cases hi : s.closures[i]? with
+    | none => simp [step, hi]
+    | some v => cases hr : s.read v <;> simp [step, hi, hr]
+  | makeMemo v => refine Or.inl ?_; by_cases h : v < s.views.length <;> simp [step, h]
+  | readMemo i =>
+    refine Or.inl ?_
+    cases hi : s.memos[i]? with
+    | none => simp [step, hi]
+    | some m =>
+      cases hd : m.dirty with
+      | true => cases hr : s.read m.view <;> simp [step, hi, hd, hr]
+      | false => cases hcache : m.cache <;> simp [step, hi, hd, hcache]
+  | provideRoot init => exact Or.inr ⟨_, rfl, fun p hp => by cases hp⟩
+  | childOwner o =>
+    by_cases h : o < s.owners.length
+    · exact Or.inr ⟨{ parent := some o, provided := none }, by simp [step, h], fun p hp => by simp at hp; omega⟩
+    · exact Or.inl (by simp [step, h])
+  | provider o initial fallback =>
+    by_cases h : o < s.owners.length
+    · exact Or.inr ⟨{ parent := some o, provided := some s.cells.length }, by simp [step, h],
+        fun p hp => by simp at hp; omega⟩
+    · exact Or.inl (by simp [step, h])
+  | useCtx o =>
+    refine Or.inl ?_
+    by_cases h : o < s.owners.length
+    · cases hl : s.lookup o <;> simp [step, h, hl]
+    · simp [step, h]
+
+theorem owners_length_mono (s : State) (op : Op) : s.owners.length ≤ (step s op).1.owners.length := by
+  rcases owners_step s op with e | ⟨n, e, _⟩ <;> rw [e] <;> simp
+
+theorem owners_length_mono_run (ops : List Op) : ∀ s : State, s.owners.length ≤ (run s ops).1.owners.length := by
+  induction ops with
+  | nil => intro s; exact Nat.le_refl _
+  | cons op ops ih =>
+    intro s
+    simp only [run]
+    exact Nat.le_trans (owners_length_mono s op) (ih _)
+
+theorem lookup_stable_step (s : State) (op : Op) (wf : OwnersWF s.owners) :
+    OwnersWF (step s op).1.owners ∧
+    ∀ o, o < s.owners.length → (step s op).1.lookup o = s.lookup o := by
+  rcases owners_step s op with e | ⟨n, e, hp⟩
+  · exact ⟨by rw [e]; exact wf, fun o _ => by simp [State.lookup, e]⟩
+  · exact ⟨by rw [e]; exact wf_append wf n hp,
+      fun o ho => by simp only [State.lookup, e]; exact lookup_append wf n hp o ho⟩
+
+/-- every state reached from scratch has a well-formed owner tree (parents are older owners) -/
+theorem reachable_wf (ops : List Op) : OwnersWF (run State.empty ops).1.owners :=
+  (run_abs abs_empty ops).own.wf
+
+/-- **Provider scoping, one provider**: `<I18nSubContextProvider>` rendered in owner `o` creates a new context and a
+    new (child) owner; `use_i18n()` in the child owner finds the new sub-context; in `o` and in every other existing
+    owner `use_i18n()` finds what it found before (in `o`: the parent's context); the new sub-context starts, without
+    explicit initial locale, from the locale of the context visible in `o`. -/
+theorem C16_provider_scoping (s : State) (wf : OwnersWF s.owners) (o : Nat) (ho : o < s.owners.length)
+    (initial : Option Locale) (fallback : Locale) :
+    let s1 := (step s (.provider o initial fallback)).1
+    (step s (.provider o initial fallback)).2 = .provided s.views.length s.owners.length s.cells.length ∧
+    s1.lookup s.owners.length = some s.cells.length ∧
+    (∀ o', o' < s.owners.length → s1.lookup o' = s.lookup o') ∧
+    s1.cells[s.cells.length]? = some (match initial with
+      | some i => i
+      | none => match s.lookup o with
+        | some pc => (s.cells[pc]?).getD fallback
+        | none => fallback) := by
+  intro s1
+  have hp : ∀ q, ({ parent := some o, provided := some s.cells.length } : OwnerNode).parent = some q → q < s.owners.length := by
+    intro q hq; simp at hq; omega
+  refine ⟨by simp [step, ho], ?_, (lookup_stable_step s _ wf).2, ?_⟩
+  · simp only [s1, step, ho, if_true, State.lookup]
+    rw [lookup_new wf _ hp]
+  · simp only [s1, step, ho, if_true, List.getElem?_concat_length]
+    cases initial with
+    | some i => simp [subInit, Resolve.subMemo, Resolve.signalMaybeOnceThen, Resolve.signalOnceThen]
+    | none =>
+      cases hl : s.lookup o with
+      | none => simp [subInit, Resolve.subMemo, Resolve.signalMaybeOnceThen]
+      | some pc =>
+        cases hcell : s.cells[pc]? <;>
+          simp [subInit, Resolve.subMemo, Resolve.signalMaybeOnceThen, Resolve.signalOnceThen, hcell]
+
+/-- **Provider scoping, all sequences**: whatever happens later — any number of sibling providers rendered in the
+    same owner, nested providers, sets, reads — what `use_i18n()` finds in an existing owner never changes: a
+    sub-context is visible only below its provider's children, never in its parent's owner or in a sibling. -/
+theorem C16_provider_scoping_seq (s : State) (wf : OwnersWF s.owners) (ops : List Op) :
+    OwnersWF (run s ops).1.owners ∧ ∀ o, o < s.owners.length → (run s ops).1.lookup o = s.lookup o := by
+  induction ops generalizing s with
+  | nil => exact ⟨wf, fun _ _ => rfl⟩
+  | cons op ops ih =>
+    have ⟨w1, e1⟩ := lookup_stable_step s op wf
+    have l1 := owners_length_mono s op
+    have ⟨w2, e2⟩ := ih (step s op).1 w1
+    simp only [run]
+    exact ⟨w2, fun o ho => by rw [e2 o (Nat.lt_of_lt_of_le ho l1), e1 o ho]⟩
+
+/-- **Sibling providers are isolated and initialise from the parent**: after any operations following a first
+    provider in owner `o` (its children setting their locale, more siblings, …) a further provider rendered in `o`
+    without initial locale starts from the *current* locale of the context that was visible in `o` all along — the
+    parent's — not from a sibling's. -/
+theorem C16_sibling_provider_inits_from_parent (s : State) (wf : OwnersWF s.owners) (o : Nat)
+    (ho : o < s.owners.length) (ops : List Op) (fallback : Locale) :
+    let s' := (run s ops).1
+    (step s' (.provider o none fallback)).1.cells[s'.cells.length]? =
+      some (match s.lookup o with
+        | some pc => (s'.cells[pc]?).getD fallback
+        | none => fallback) := by
+  intro s'
+  have ⟨w, e⟩ := C16_provider_scoping_seq s wf ops
+  have hlen : o < s'.owners.length := Nat.lt_of_lt_of_le ho (owners_length_mono_run ops s)
+  have := (C16_provider_scoping s' w o hlen none fallback).2.2.2
+  rw [e o ho] at this
+  exact this
+
 /-! ### Concrete sequences (locales: 0 = en, 1 = en-US, 2 = fr, 3 = fr-CA, 4 = de) -/
 
 /-- root(fr); closure on it; scope; set(de) through the scoped view; the old closure and both views show `de`;
@@ -269,6 +551,36 @@ example : (run State.empty demo).2 =
      .view 3, .locale 1, .view 4, .locale 0, .view 5, .none, .locale 2, .locale 0] := by decide
 
 example : observations demo = (run State.empty demo).2 := by decide
+
+/-- memos across untracked and tracked sets (the laziness, then the notification on a same-value tracked set):
+    root(fr); memo on it and on a scoped view; both read fr; untracked set to de: both still read fr (by design);
+    tracked set to the *same* de through the scoped view: both read de; a memo made afterwards reads de too -/
+private def demoMemo : List Op :=
+  [.newRoot 2, .scope 0, .makeMemo 0, .makeMemo 1, .readMemo 0, .readMemo 1, .setUntracked 0 4, .get 1,
+   .readMemo 0, .readMemo 1, .set 1 4, .readMemo 0, .readMemo 1, .makeMemo 1, .readMemo 2]
+
+example : (run State.empty demoMemo).2 =
+    [.view 0, .view 1, .memo 0, .memo 1, .locale 2, .locale 2, .none, .locale 4,
+     .locale 2, .locale 2, .none, .locale 4, .locale 4, .memo 2, .locale 4] := by decide
+
+example : observations demoMemo = (run State.empty demoMemo).2 := by decide
+
+/-- providers: root provided in owner 0 (fr); a provider with initial de → child owner 1, context 1; `use_i18n()` in
+    owner 0 still finds context 0; a second sibling provider without initial starts from the parent's fr (not de);
+    inside owner 1 `use_i18n()` finds context 1; a nested plain child owner of owner 2 sees context 2; setting the
+    context found in the parent owner changes the parent only; a later sibling starts from the parent's new locale -/
+private def demoProv : List Op :=
+  [.provideRoot 2, .provider 0 (some 4) 0, .useCtx 0, .provider 0 none 0, .get 3, .useCtx 1, .childOwner 2, .useCtx 3,
+   .set 2 1, .get 0, .get 1, .get 3, .provider 0 none 0, .get 6, .useCtx 0]
+
+example : (run State.empty demoProv).2 =
+    [.provided 0 0 0, .provided 1 1 1, .found 2 0, .provided 3 2 2, .locale 2, .found 4 1, .owner 3, .found 5 2,
+     .none, .locale 1, .locale 4, .locale 2, .provided 6 4 3, .locale 1, .found 7 0] := by decide
+
+example : observations demoProv = (run State.empty demoProv).2 := by decide
+
+/-- `use_i18n()` where nothing is provided: not found -/
+example : (run State.empty [.provideRoot 0, .useCtx 0, .useCtx 1]).2 = [.provided 0 0 0, .found 1 0, .bad] := by decide
 
 /-- operations naming unknown views / closures are rejected and change nothing -/
 example : (run State.empty [.get 0, .newRoot 1, .set 3 2, .callClosure 0, .scope 7, .sub (some 5) none 0, .get 0]).2 =
